@@ -87,7 +87,7 @@ impl<'a> Ctx<'a> {
         let v = json!({"ev":"end","run":self.run});
         self.emit(v);
     }
-    fn fresh_id(&mut self) -> u64 {
+    pub fn fresh_id(&mut self) -> u64 {
         let id = self.next_id;
         self.next_id += 1;
         id
